@@ -949,6 +949,7 @@ func configs(tier string) []*config {
 // search
 
 type violCase struct {
+	Tier   string   `json:"tier"`
 	Config string   `json:"config"`
 	Path   []int    `json:"path"`
 	Ops    []string `json:"ops"`
@@ -1048,7 +1049,7 @@ func searchConfig(c *fw.Ctx, cfg *config, total *fw.Stats) {
 			path := append(append([]uint16{}, frontier[s.parent]...), s.opi)
 			if s.bad != "" {
 				if nviol < 20 {
-					vc := violCase{Config: cfg.name}
+					vc := violCase{Tier: c.Tier, Config: cfg.name}
 					for _, o := range path {
 						vc.Path = append(vc.Path, int(o))
 						vc.Ops = append(vc.Ops, cfg.ops[o].name)
@@ -1097,10 +1098,123 @@ func searchConfig(c *fw.Ctx, cfg *config, total *fw.Stats) {
 	total.Outcome(fmt.Sprintf("%s:states=%d", cfg.name, states))
 }
 
+// longHistories is the supplementary sample of the property's "long random
+// histories" clause: seeded pseudo-random sequences of 10^4 operations over
+// thousands of live keys whose hashes are adversarial (few distinct hashes, all
+// congruent modulo small table sizes), compared with the model after every
+// operation (cheap checks) and in full every 500 operations. It is reported
+// as sampled_extra and never contributes to `exhaustive`.
+func longHistories(c *fw.Ctx, total *fw.Stats) {
+	seed := uint64(c.Seed)*0x9E3779B97F4A7C15 + 12345
+	next := func() uint64 {
+		seed ^= seed << 13
+		seed ^= seed >> 7
+		seed ^= seed << 17
+		return seed
+	}
+	for _, set := range []bool{false, true} {
+		for dist := 0; dist < 3; dist++ {
+			const nkeys = 3000
+			keys := make([]K, nkeys)
+			for i := range keys {
+				var h uint32
+				switch dist {
+				case 0: // 7 distinct hashes
+					h = uint32(i%7) * 1024
+				case 1: // all congruent mod 1024, distinct above
+					h = uint32(i) << 10
+				case 2: // identical
+					h = 0xdead
+				}
+				keys[i] = K{i, h}
+			}
+			cfg := &config{name: fmt.Sprintf("long-%v-dist%d", set, dist), set: set, keys: keys}
+			st := newState(cfg, &starlark.Thread{Name: "c12-long"})
+			bad := ""
+			nops := 10000
+			if dist == 2 {
+				nops = 3000 // a single chain: every operation is linear
+			}
+			for op := 0; op < nops && bad == ""; op++ {
+				r := next()
+				k := keys[int(r>>8)%nkeys]
+				switch r % 8 {
+				case 0, 1, 2, 3: // insert / update
+					st.m.set(k.ID, int(r>>40)%5)
+					var err error
+					if set {
+						st.m.e[st.m.find(k.ID)].v = 0
+						err = st.s.Insert(k)
+					} else {
+						err = st.d.SetKey(k, val(st.m.e[st.m.find(k.ID)].v))
+					}
+					if err != nil {
+						bad = err.Error()
+					}
+				case 4, 5: // delete
+					_, found := st.m.del(k.ID)
+					var f bool
+					if set {
+						f, _ = st.s.Delete(k)
+					} else {
+						_, f, _ = st.d.Delete(k)
+					}
+					if f != found {
+						bad = fmt.Sprintf("op %d: Delete(%v) found=%v model=%v", op, k, f, found)
+					}
+				case 6: // pop first
+					if len(st.m.e) > 0 && r%64 == 6 {
+						name := "popitem"
+						if set {
+							name = "pop"
+						}
+						if _, err := st.method(name); err != nil {
+							bad = err.Error()
+						}
+						st.m.del(st.m.e[0].k)
+					}
+				case 7:
+					if r%4096 == 7 {
+						st.method("clear")
+						st.m.e = nil
+					}
+				}
+				if n := starlark.Len(st.recv()); n != len(st.m.e) {
+					bad = fmt.Sprintf("op %d: len %d model %d", op, n, len(st.m.e))
+				}
+				if op%500 == 499 && bad == "" {
+					if got := keysToIDs(listElems(st.recv())); got != st.m.keyString() {
+						bad = fmt.Sprintf("op %d: iteration order differs from the model", op)
+					}
+					for i := 0; i < nkeys; i += 37 {
+						var has bool
+						if set {
+							has, _ = st.s.Has(keys[i])
+						} else {
+							_, has, _ = st.d.Get(keys[i])
+						}
+						if has != (st.m.find(i) >= 0) {
+							bad = fmt.Sprintf("op %d: membership of k%d = %v, model %v", op, i, has, !has)
+						}
+					}
+				}
+			}
+			total.Count("sampled_extra_long_history_ops", int64(nops))
+			if bad != "" {
+				total.Violate(cfg.name+fmt.Sprintf(":seed=%d", c.Seed), "long random history: "+bad, violCase{Config: cfg.name})
+			}
+		}
+	}
+	total.Notes = append(total.Notes, "sampled_extra: 6 seeded pseudo-random histories (3000-10000 operations over 3000 keys with adversarial hash distributions), reported separately from the exhaustive searches")
+}
+
 func run(c *fw.Ctx) *fw.Stats {
 	total := fw.NewStats()
 	for _, cfg := range configs(c.Tier) {
 		searchConfig(c, cfg, total)
+	}
+	if c.Thorough() {
+		longHistories(c, total)
 	}
 	return total
 }
@@ -1110,7 +1224,15 @@ func replay(c *fw.Ctx, raw json.RawMessage) []fw.Viol {
 	if err := json.Unmarshal(raw, &vc); err != nil {
 		fw.Fatal("bad case: %v", err)
 	}
-	for _, cfg := range configs("quick") {
+	if strings.HasPrefix(vc.Config, "long-") {
+		st := fw.NewStats()
+		longHistories(c, st)
+		return st.Viols
+	}
+	if vc.Tier == "" {
+		vc.Tier = "quick"
+	}
+	for _, cfg := range configs(vc.Tier) {
 		if cfg.name != vc.Config {
 			continue
 		}
